@@ -142,6 +142,30 @@ def run(prog: Program, chk: Check) -> None:
               if any(method_call(c) in (("self._f", "close"),) for c in n.calls())}
     if not fclose:
         raise AnalysisError("W2: close() no longer calls self._f.close()")
+    # the reset may live in a helper method, as long as nobody but close() can reach it
+    # (who-may-call over the whole package) and the helper resets on every path
+    fpt = prog.cls(f"{PT}:FileProcessTensor")
+    clearing_helpers: Dict[str, Unit] = {}
+    for mname, mu in fpt.methods.items():
+        if mu is cl:
+            continue
+        if any(isinstance(x, ast.Assign) and any(_attrs_key(t) == key for t in x.targets)
+               and isinstance(x.value, ast.Constant) and not x.value.value
+               for x in walk_local(mu.node)):
+            clearing_helpers[mname] = mu
+    close_only: Dict[str, Unit] = {}
+    changed = True
+    while changed:
+        changed = False
+        for mname, mu in clearing_helpers.items():
+            if mname in close_only:
+                continue
+            callers = [w for w in prog.units.values() if not isinstance(w.node, ast.Lambda)
+                       for c in walk_local(w.node) if isinstance(c, ast.Call)
+                       and isinstance(c.func, ast.Attribute) and c.func.attr == mname]
+            if callers and all(w is cl or (w.name in close_only and w.cls == cl.cls) for w in callers):
+                close_only[mname] = mu
+                changed = True
 
     def mk_lookup(write_val):
         def lookup(nid, e):
@@ -159,6 +183,29 @@ def run(prog: Program, chk: Check) -> None:
                     return ae.NP_TRUE
             return ae.UNKNOWN
         return lookup
+    # a call of a close-only helper counts as the reset if the helper resets on every path
+    for mname, mu in close_only.items():
+        hdu = DefUse(mu, CFG(mu.node, exc_edges=False))
+        hg = hdu.cfg
+        h_false = {n.id for n in hg.nodes if n.kind == "stmt" and isinstance(n.ast, ast.Assign)
+                   and any(_attrs_key(t) == key for t in n.ast.targets)
+                   and isinstance(n.ast.value, ast.Constant) and not n.ast.value.value}
+
+        def h_lookup(nid, e, hdu=hdu):
+            if _attrs_key(e) == key:
+                return ae.NP_TRUE
+            d = dotted(e)
+            if d == "self._write":
+                return True
+            if d == "self._f":
+                return ae.OBJ
+            return ae.UNKNOWN
+        hp = hg.find_path([hg.entry], lambda x: x == hg.exit, blocked=lambda x: x in h_false,
+                          edge_ok=ae.feasible_edges(hg, h_lookup))
+        if hp is None and h_false:
+            store_false |= {n.id for n in g.nodes
+                            if any(method_call(c) == ("self", mname) for c in n.calls())}
+            chk.saw(mu, hg)
     feas = ae.feasible_edges(g, mk_lookup(True))
     p = g.find_path([g.entry], lambda x: x in fclose, blocked=lambda x: x in store_false,
                     edge_ok=feas)
@@ -231,7 +278,8 @@ def run(prog: Program, chk: Check) -> None:
             "" if p2 is None else "a cleanly closed file triggers the corruption warning")
 
     # ---------------------------------------------------------------- W6
-    chk.rule("W6", "the flag is stored only in _create_file (True) and close() (False)", floor=1)
+    chk.rule("W6", "the flag is stored only in _create_file (True) and close() (False) - or in a "
+             "helper that only close() can reach", floor=1)
     for u in prog.units.values():
         if isinstance(u.node, ast.Lambda):
             continue
@@ -248,7 +296,8 @@ def run(prog: Program, chk: Check) -> None:
                     if _attrs_key(t) == key:
                         where = u.qual.split(":")[1]
                         val = norm(x.value) if hasattr(x, "value") and x.value is not None else "<del>"
-                        ok = (u is cf and val == "True") or (u is cl and val in ("False", "0"))
+                        ok = (u is cf and val == "True") or (u is cl and val in ("False", "0")) \
+                            or (u.cls == cl.cls and u.name in close_only and val in ("False", "0"))
                         chk.add("W6", u, f"attrs[{key!r}] = {val}", ok,
                                 "" if ok else "the flag is stored outside its life cycle", x)
                 # attrs.update / modify / create
